@@ -17,7 +17,8 @@ import (
 )
 
 var (
-	verifDir string // /verif
+	onlyBatch string
+	verifDir  string // /verif
 	workDir  string // scratch cwd for workers
 	binDir   string
 )
@@ -209,7 +210,11 @@ func runPool(p *Prop, b *Batch, n int, verifSeed uint64, a *agg, lanes int, dead
 		go func(lane int) {
 			defer wg.Done()
 			hs := mix(verifSeed, "hash/"+b.Name, uint64(lane))%1000000007 + 1
-			w := newWorker(workerBin(b), hs, b.Env, timeoutOf(b))
+			env := b.Env
+			if b.Race {
+				env = raceEnv(b, mix(verifSeed, "race-lane/"+b.Name, uint64(lane)))
+			}
+			w := newWorker(workerBin(b), hs, env, timeoutOf(b))
 			defer w.stop()
 			for k := lane; k < n; k += lanes {
 				if time.Now().After(deadline) {
@@ -245,6 +250,7 @@ func main() {
 	scale := flag.Float64("scale", 1, "scale run counts")
 	lanesFlag := flag.Int("lanes", 0, "worker processes")
 	maxMinutes := flag.Float64("max-minutes", 0, "stop dealing new runs after this many minutes")
+	flag.StringVar(&onlyBatch, "batch", "", "debugging: run only this batch")
 	flag.StringVar(&verifDir, "verif", "/verif", "verif dir")
 	flag.StringVar(&binDir, "bin", "/verif/.build", "binaries dir")
 	flag.Parse()
@@ -301,7 +307,7 @@ func doCheck(p *Prop, tier string, verifSeed uint64, lanes int, scale, maxMinute
 	for i := range p.Batches {
 		b := &p.Batches[i]
 		n := int(float64(nOf(b, tier)) * scale)
-		if n <= 0 {
+		if n <= 0 || (onlyBatch != "" && onlyBatch != b.Name) {
 			continue
 		}
 		t0 := time.Now()
@@ -320,7 +326,8 @@ func doCheck(p *Prop, tier string, verifSeed uint64, lanes int, scale, maxMinute
 	// determinism self-check slice: re-run a few runs of each pool batch in fresh processes
 	for i := range p.Batches {
 		b := &p.Batches[i]
-		if (b.Kind == "" || b.Kind == "pool") && nOf(b, tier) > 0 {
+		// not for -race batches: there the goroutines are deliberately unscheduled
+		if (b.Kind == "" || b.Kind == "pool") && !b.Race && nOf(b, tier) > 0 && (onlyBatch == "" || onlyBatch == b.Name) {
 			selfSlice(p, b, verifSeed, a, lanes, 8)
 		}
 	}
@@ -328,6 +335,9 @@ func doCheck(p *Prop, tier string, verifSeed uint64, lanes int, scale, maxMinute
 	// are tolerated and reported in evidence, more than that means the check itself cannot be trusted.
 	if n := len(a.infra); n > 0 && n <= 3+a.runs/200 && allWatchdog(a.infra) {
 		fmt.Printf("verif: %d runs skipped by the watchdog (no answer; counted in evidence as watchdog_skipped)\n", n)
+		for _, s := range a.infra {
+			fmt.Println("verif:   skipped:", strings.SplitN(s, "\n", 2)[0])
+		}
 		a.probes["watchdog_skipped"] = n
 		a.infra = nil
 	}
@@ -570,7 +580,7 @@ func doSelftest(p *Prop, verifSeed uint64, lanes int) int {
 	total := 0
 	for i := range p.Batches {
 		b := &p.Batches[i]
-		if b.Kind != "" && b.Kind != "pool" {
+		if (b.Kind != "" && b.Kind != "pool") || b.Race {
 			continue
 		}
 		for _, procs := range []string{"1", "4", "16"} {
